@@ -73,6 +73,28 @@ def gen_bar(rng, cid, tier):
     return lines
 
 
+EXPLORE = [
+    (["sem 0", "thread w2/0", "thread w1/0", "thread s"], 1500, 25000),            # the D7 shape
+    (["sem 0", "thread w1/1", "thread w1/0", "thread s s"], 1000, 25000),
+    (["sem 1", "thread w2/0 s", "thread a1/0 s2", "thread w1/0"], 0, 25000),
+    (["barrier mutex 2 2"], 1000, 25000),
+    (["barrier mutex 3 2"], 1000, 25000),
+    (["barrier spin 2 2"], 1000, 25000),
+    (["barrier spiny 2 2"], 1000, 25000),
+    (["barrier spin 3 1"], 0, 25000),
+    (["barrier mutex 2 4"], 0, 25000),
+]
+
+
+def explore_cases(tier):
+    cs = []
+    for i, (lines, q, t) in enumerate(EXPLORE):
+        n = q if tier == "quick" else t
+        if n:
+            cs.append([f"case x{i}"] + lines + [f"explore runs={n}", f"explore runs={max(n // 2, 1)} spur=1"])
+    return cs
+
+
 class C11(flow.Spec):
     pid = "C11"
     harness = dict(name="c11", sources=["c11.cpp"], flags=["-include", SHIM])
@@ -81,7 +103,9 @@ class C11(flow.Spec):
                        "1-8 generations; each run under several PRNG schedules (sticky / spurious wake-up variants). "
                        "Non-trivial: a semaphore case in which some waiter really blocked and the waits use at least two "
                        "different delta+slack amounts; a barrier case with >= 2 threads and >= 2 generations; distinct = "
-                       "distinct scenario + schedule lines")
+                       "distinct scenario + schedule lines; in addition a fixed list of tiny scenarios is explored "
+                       "systematically (depth-first over all scheduling choices, with and without one spurious wake-up) "
+                       "up to a run budget, and the number of schedules must agree between implementation and model")
     assumptions = [
         "sequentially consistent interleavings at the granularity of synchronisation operations; weak-memory "
         "reorderings of the acquire/release accesses of the spin barrier are not covered",
@@ -102,10 +126,12 @@ class C11(flow.Spec):
 
     def cases(self, ctx, seed, tier, round_no=0):
         rng = random.Random(seed * 1000003 + round_no * 7919 + 11)
-        n = 300 if tier == "quick" else 4000
+        n = 800 if tier == "quick" else 10000
         cs = []
         for i in range(n):
             cs.append(gen_sem(rng, i, tier) if rng.random() < 0.55 else gen_bar(rng, i, tier))
+        if round_no == 0:
+            cs += explore_cases(tier)
         return cs
 
     def nontrivial(self, case, answers):
@@ -121,7 +147,7 @@ class C11(flow.Spec):
                 return tuple(case)
             return None
         p = case[1].split()
-        if len(p) == 4 and int(p[2]) >= 2 and int(p[3]) >= 2:
+        if p[0] == "barrier" and len(p) == 4 and int(p[2]) >= 2 and int(p[3]) >= 2:
             return tuple(case)
         return None
 
